@@ -22,6 +22,7 @@ FUNCTIONS = [
     dict(file=_O + 'arithmetic/mod.rs', path='fn coerce_numeric_values'),
     dict(file=_O + 'arithmetic/mod.rs', path='fn checked_integer_result'),
     dict(file=_O + 'comparison/mod.rs', path='fn compare'),
+    dict(file='crates/vibesql-executor/src/evaluator/expressions/operators.rs', path='fn eval_unary_op'),
 ]
 H = {}
 _3VL = ['C01', 'C06']
@@ -48,6 +49,9 @@ for h in ['int_int', 'int_small', 'big_int', 'small_big']:
     H['e_cmp_' + h] = dict(fn='eval_binary_op', clause='six_comparisons_are_the_mathematical_relation[%s]' % h, props=_CM)
 H['e_cmp_double_double'] = dict(fn='eval_binary_op', clause='ieee_relation_boolean_result[double,double]', props=_CM)
 H['e_cmp_int_double_consistent'] = dict(fn='eval_binary_op', clause='trichotomy_le_ne_consistent[int,double]', props=_CM)
+H['e_unary_not_kleene_and_numeric'] = dict(fn='eval_unary_op', clause='not_is_kleene_and_true_iff_falsy_on_numbers', props=['C06', 'C01'])
+H['e_unary_minus_exact_or_error'] = dict(fn='eval_unary_op', clause='minus_exact_or_error', props=['C24', 'C01'])
+H['e_unary_plus_identity'] = dict(fn='eval_unary_op', clause='plus_identity', props=['C01'])
 H['e_canary_must_fail'] = dict(fn='canary', clause='must_fail', canary=True)
 HARNESSES = H
 TRUSTED = [
